@@ -41,6 +41,33 @@ for N in (2, 3, 4):
                            % (N, start, step, tt, numpy.abs(U[:, :, k] - want).max()))
                 break
 
+# ---- non-reversible (cyclic) transfer: complex spectrum; long runs that reach the stationary state -------------------------------------
+Kc = numpy.array([[-0.03, 0.0, 0.02], [0.03, -0.01, 0.0], [0.0, 0.01, -0.02]])
+tc = qr.TimeAxis(0.0, 400, 0.5)
+ppc = PopulationPropagator(tc, Kc)
+for (start, length, step) in ((0.0, 20, 10.0), (5.0, 10, 15.0)):
+    sub = qr.TimeAxis(start, length, step)
+    try:
+        U = ppc.get_PropagationMatrix(sub)
+    except Exception as e:      # noqa
+        bad.append("cyclic 3-state transfer: get_PropagationMatrix raised %s" % type(e).__name__)
+        continue
+    dev = max(numpy.abs(U[:, :, k] - scipy.linalg.expm(Kc * tt)).max() for k, tt in enumerate(sub.data))
+    if dev > 1e-8:
+        bad.append("cyclic 3-state transfer (complex spectrum): propagation matrix on sub-axis (start %g, step %g) differs from exp(Kt) by %.3g"
+                   % (start, step, dev))
+for (K_, dt_, n_) in ((numpy.array([[-0.03, 0.1], [0.03, -0.1]]), 0.1, 6000), (Kc, 0.5, 3000)):
+    tl = qr.TimeAxis(0.0, n_, dt_)
+    p0 = numpy.zeros(K_.shape[0])
+    p0[0] = 1.0
+    pops = PopulationPropagator(tl, K_).propagate(p0)
+    x_ = numpy.abs(K_).sum(axis=0).max() * dt_
+    bound_ = 2 * n_ * x_ ** 5 / 120.0 + 1e-10
+    dev = max(numpy.abs(pops[k] - scipy.linalg.expm(K_ * tl.data[k]) @ p0).max() for k in range(0, n_, 97))
+    if dev > bound_:
+        bad.append("long run to the stationary state (%d steps of %g): populations differ from exp(Kt) p0 by %.3e, truncation bound %.3e"
+                   % (n_, dt_, dev, bound_))
+
 for b in bad[:10]:
     print("VIOLATED:", b)
 print("C17 oracle: %d violations" % len(bad))
